@@ -17,9 +17,7 @@ set_option Elab.async false
 namespace KlogV.Regexes
 open KlogV.Rx
 
-theorem closePlaceholder : Tie Gen.rx_parser_reconciling_Reconciler_CloseOpenRange_1 Gen.rx_parser_reconciling_Reconciler_CloseOpenRange_1_anchors Gen.rx_parser_reconciling_Reconciler_CloseOpenRange_1_unsupported Expect.closePlaceholder true true := by
-  decide +kernel
-theorem pauseValue : Tie Gen.rx_parser_reconciling_Reconciler_ExtendPause_1 Gen.rx_parser_reconciling_Reconciler_ExtendPause_1_anchors Gen.rx_parser_reconciling_Reconciler_ExtendPause_1_unsupported Expect.pauseValue true false := by
-  decide +kernel
+theorem closePlaceholder : tied Gen.allRegexes Expect.closePlaceholder true true = true := by decide +kernel
+theorem pauseValue : tied Gen.allRegexes Expect.pauseValue true false = true := by decide +kernel
 
 end KlogV.Regexes
